@@ -278,6 +278,8 @@ struct Features {
     /// no construct that can fail at run time (used for cycle graphs: the cycle must be the only error)
     safe: bool,
     skip_unknown_slice_bounds: bool,
+    /// `s[a::c]` / `s[::c]` parse on this tree (`::` used to be lexed as one token: fixed under C05)
+    double_colon: bool,
 }
 
 struct Src<'a> {
@@ -527,8 +529,8 @@ impl<'a> Builder<'a> {
                 let st = part(self, 650);
                 let mut en = part(self, 650);
                 let step = part(self, 450);
-                if step.is_some() && en.is_none() {
-                    // `s[a::c]` / `s[::c]` do not parse (`::` is one token; recorded under C05): give an end
+                if step.is_some() && en.is_none() && !f.double_colon {
+                    // `s[a::c]` / `s[::c]` do not parse on this tree (`::` is one token; C05): give an end
                     en = Some(Box::new(X::Int(SMALL_INTS[self.src.pick(SMALL_INTS.len())])));
                 }
                 X::Slice(Box::new(b), st, en, step)
@@ -2376,11 +2378,15 @@ fn real_main() {
             Err(e) => out.inconclusive(&format!("known finding {} cannot be replayed: {e}", k.key)),
         }
     }
+    // calibration: does `s[::2]` parse on this tree?
+    let double_colon = lexer::lex("const K = \"abc\"[::2]\n").ok().and_then(|t| parser::parse(&t).ok()).is_some();
+    ev.set("slice_double_colon_parses", json!(double_colon));
+
     // ---- leg 1 + 2: in-process
     let n_graphs = args.tier.pick(5_000usize, 500_000usize);
     let n_cycles = args.tier.pick(800usize, 40_000usize);
-    let general = Features { e2e: false, safe: false, skip_unknown_slice_bounds: kf(K_SLICE_BOUND) };
-    let safe = Features { e2e: false, safe: true, skip_unknown_slice_bounds: false };
+    let general = Features { e2e: false, safe: false, skip_unknown_slice_bounds: kf(K_SLICE_BOUND), double_colon };
+    let safe = Features { e2e: false, safe: true, skip_unknown_slice_bounds: false, double_colon };
     let strat = recipe_strategy(false);
     let mut runner = gen::runner(args.subseed(6));
     let mut stats = Stats::default();
@@ -2516,7 +2522,7 @@ fn real_main() {
     // ---- leg 3: end to end
     let n_e2e = args.tier.pick(48usize, 1500usize);
     let per_program = args.tier.pick(12usize, 25usize);
-    let e2ef = Features { e2e: true, safe: false, skip_unknown_slice_bounds: false };
+    let e2ef = Features { e2e: true, safe: false, skip_unknown_slice_bounds: false, double_colon };
     let mut erunner = gen::runner(args.subseed(66));
     let mut cases: Vec<E2eCase> = Vec::new();
     let mut tries = 0;
